@@ -79,16 +79,17 @@ def printVariant (o : FormatOptions) (v : Variant) (prefixSize : Nat) : Bytes ×
       else (v.name ++ tmp, false)
     else (v.name ++ printVariantFields o fs (bs "\n\t\t"), true)
 
-/-- the loop over union variants of `printWithNewLineOption` (`force` is the mutable `forceNewline`). -/
-def printVariants (o : FormatOptions) (sep : Bytes) : List Variant → Nat → Bool → Bytes × Bool
+/-- the loop over union variants of `printWithNewLineOption` (`force` is the mutable `forceNewline`; `single`:
+`len(Variants) == 1`, the union keeps its leading separator — fix 11a4a9c8). -/
+def printVariants (o : FormatOptions) (sep : Bytes) (single : Bool) : List Variant → Nat → Bool → Bytes × Bool
   | [], _, force => ([], force)
   | v :: vs, i, force =>
     let (c, force) := if !o.ignoreComments && v.cb != [] then
         (bs "\n\t" ++ intercalate (bs "\n\t") ((splitNL v.cb).map trimSpace), true)
       else ([], force)
-    let s := if i != 0 || force then sep else []
+    let s := if i != 0 || force || single then sep else []
     let (vt, vForce) := printVariant o v sep.length
-    let (rest, force') := printVariants o sep vs (i + 1) (force || vForce)
+    let (rest, force') := printVariants o sep single vs (i + 1) (force || vForce)
     (c ++ s ++ vt ++ rest, force')
 
 def printStructFields (o : FormatOptions) (sep : Bytes) (force : Bool) : List Field → Nat → Bytes
@@ -108,7 +109,7 @@ def printWithNewLineOption (o : FormatOptions) (t : TypeDef) (forceNewline : Boo
     let hasComments := !o.ignoreComments && vs.any (·.hasBeforeCommentIn)
     let force := forceNewline || hasComments
     let sep := if force then bs "\n\t| " else bs " | "
-    let (body, force) := printVariants o sep vs 0 force
+    let (body, force) := printVariants o sep (vs.length == 1) vs 0 force
     (pre ++ body, force)
   | .struct (.fields fs) =>
     let pre := if !isReturnType then bs " = " else []
